@@ -48,6 +48,26 @@ Theorem C07_stream_parse : forall (t : tx) (b r : bytes), tx_wf t -> tx_ins t <>
 Proof. exact stream_parse_wire. Qed.
 Print Assumptions C07_stream_parse.
 
+(* the same for an INTRINSIC notion of canonical bytes: decode_strict (Spec/TxWireSpec.v) is an independent BIP144
+   decoder that accepts only minimal compact sizes, fully present fields, flag 01 after the marker and an extended
+   form carrying at least one non-empty witness.  Whatever it accepts, pycoin's parser reads as the same
+   transaction and re-serialises to the same bytes ... *)
+Theorem C07_stream_parse_canonical : forall (b : bytes) (t : tx) (r : bytes), decode_strict b = Some (t, r) ->
+  parse_tx true b = Ret (t, r) /\ exists w, stream_tx false true t = Ret w /\ b = w ++ r.
+Proof. exact stream_parse_canonical. Qed.
+Print Assumptions C07_stream_parse_canonical.
+
+(* ... and the canonical byte strings are exactly the wire-format serialisations of transactions with inputs *)
+Theorem C07_canonical_sound : forall (b : bytes) (t : tx) (r : bytes), decode_strict b = Some (t, r) ->
+  tx_wf t /\ tx_ins t <> [] /\ exists w, wire_format t w /\ b = w ++ r.
+Proof. exact decode_strict_sound. Qed.
+Print Assumptions C07_canonical_sound.
+
+Theorem C07_canonical_complete : forall (t : tx) (w r : bytes), tx_wf t -> tx_ins t <> [] -> wire_format t w ->
+  decode_strict (w ++ r) = Some (t, r).
+Proof. exact decode_strict_complete. Qed.
+Print Assumptions C07_canonical_complete.
+
 (* Tx.parse never runs out of the fuel of the model's count loops: it is total *)
 Theorem C07_parse_total : forall (a : bool) (s : bytes), parse_tx a s <> OutOfFuel.
 Proof. exact parse_tx_fuel. Qed.
